@@ -303,7 +303,10 @@ class CodeBase:
         """
         # Sort the directory entries, so that nothing downstream depends on
         # the order in which the file system happens to enumerate them.
+        # A file below two of the directories is still listed only once.
+        seen = set()
         for directory in self.directories:
             for path in sorted(Path(directory).rglob("*")):
-                if self.__contains__(path):
+                if path not in seen and self.__contains__(path):
+                    seen.add(path)
                     yield str(path)
